@@ -123,3 +123,140 @@ def assemble(src: str, rom: str = "low_rom", defines=None, cwd: str | None = Non
         if cwd:
             os.chdir(old)
     return res
+
+
+def write_files(tmp, files, bins):
+    for k, v in (files or {}).items():
+        with open(os.path.join(tmp, k), "w", encoding="utf-8") as fh:
+            fh.write(v)
+    for k, v in (bins or {}).items():
+        with open(os.path.join(tmp, k), "wb") as fh:
+            fh.write(v)
+
+
+def fs_args(files, bins):
+    """driver encoding of the virtual file system"""
+    hx = lambda s: s.encode("utf-8").hex() or "-"  # noqa: E731
+    t = ",".join(f"{hx(k)}={hx(v)}" for k, v in (files or {}).items()) or "-"
+    b = ",".join(f"{hx(k)}={v.hex() or '-'}" for k, v in (bins or {}).items()) or "-"
+    return t, b
+
+
+def trace_assemble(src: str, rom: str = "low_rom", cwd: str | None = None, timeout: float = 20.0, defines=None):
+    """Assemble through the real code with per-node instance wrappers (no change to /repo):
+    returns status/exc/error, blocks, labels (raw order), and per node: class, pass-1 address, run address at
+    emission, emitted bytes, target value of *= / @= nodes.  Falls back to the plain API when the internal
+    attribute names it relies on are gone."""
+    from a816.cpu.cpu_65c816 import RomType
+    from a816.program import Program
+
+    old = os.getcwd()
+    if cwd:
+        os.chdir(cwd)
+    w = CollectWriter()
+    res = {"status": "ok", "error": None, "exc": None, "blocks": w.blocks, "labels": [], "nodes": None, "symbols": {}}
+    try:
+        with quiet(), watchdog(timeout):
+            p = Program()
+            p.resolver.rom_type = RomType[rom]
+            for k, v in defines or []:
+                p.resolver.current_scope.add_symbol(k, v)
+            try:
+                err, nodes = p.parser.parse(src, "main.s")
+                wrapped = True
+            except AttributeError:
+                wrapped = False
+            if not wrapped:
+                err = p.assemble_string_with_emitter(src, "main.s", w)
+            else:
+                recs = []
+                if err is None:
+                    for n in nodes:
+                        rec = {"cls": type(n).__name__, "pass1": None, "run": None, "bytes": None, "name": getattr(n, "symbol_name", None) or getattr(n, "symbol_base", None)}
+                        recs.append(rec)
+
+                        def mk(n=n, rec=rec):
+                            orig_pc, orig_emit = n.pc_after, n.emit
+                            state = {"first": True}
+
+                            def pc_after(cur):
+                                if state["first"]:
+                                    rec["pass1"] = cur.logical_value
+                                    state["first"] = False
+                                return orig_pc(cur)
+
+                            def emit(cur):
+                                rec["run"] = cur.logical_value
+                                rec["pc"] = n.resolver.pc if hasattr(n, "resolver") else None
+                                if rec["cls"] in ("LabelNode", "BinaryNode"):
+                                    rec["label_value"] = n.resolver.current_scope.labels.get(rec["name"])
+                                b = orig_emit(cur)
+                                rec["bytes"] = bytes(b)
+                                if rec["cls"] in ("CodePositionNode", "RelocationAddressNode"):
+                                    vn = getattr(n, "value_node", None) or getattr(n, "pc_value_node", None)
+                                    rec["target"] = vn.get_value()
+                                if rec["cls"] in ("ByteNode", "WordNode", "LongNode", "PointerNode"):
+                                    try:
+                                        rec["value"] = n.value_node.get_value()
+                                    except Exception:  # noqa: BLE001
+                                        rec["value"] = None
+                                if rec["cls"] == "AsciiNode":
+                                    rec["text"] = n.text
+                                if rec["cls"] == "BinaryNode":
+                                    rec["path"] = n.file_path
+                                if rec["cls"] == "IncludeIpsNode":
+                                    rec["blocks"] = [(a, bytes(d)) for a, d in n.blocks]
+                                if rec["cls"] == "OpcodeNode":
+                                    rec["opcode"] = n.opcode
+                                    rec["mode"] = n.addressing_mode.name
+                                    try:
+                                        rec["value"] = n.value_node.get_value() if n.value_node is not None else None
+                                    except Exception:  # noqa: BLE001
+                                        rec["value"] = None
+                                return b
+                            n.pc_after, n.emit = pc_after, emit
+                        mk()
+                    p.resolve_labels(nodes)
+                    p.emit(nodes, w)
+                    res["nodes"] = recs
+            if err is not None:
+                res["status"] = "rejected"
+                res["error"] = err
+            res["labels"] = list(p.resolver.get_all_labels())
+            res["symbols"] = dict(p.resolver.scopes[0].symbols)
+    except Timeout:
+        res["status"] = "timeout"
+    except BaseException as e:  # noqa: BLE001
+        if isinstance(e, (KeyboardInterrupt, SystemExit, MemoryError)):
+            raise
+        res["status"] = "rejected"
+        res["exc"] = {"error": "struct.error", "FileNotFoundError": "OSError"}.get(type(e).__name__, type(e).__name__)
+        res["error"] = str(e)[:300]
+    finally:
+        if cwd:
+            os.chdir(old)
+    return res
+
+
+def canon(res):
+    """canonical text of an assembly result, comparable with the driver's `asm` answer (without trace)"""
+    hx = lambda s: s.encode("utf-8").hex() or "-"  # noqa: E731
+    if res["status"] == "ok":
+        wr = ";".join(f"{a}:{d.hex() or '-'}" for a, d in res["blocks"]) or "-"
+        lb = ";".join(f"{hx(k)}={v}" for k, v in res["labels"]) or "-"
+        return f"ok W={wr} L={lb}"
+    if res["status"] == "timeout":
+        return "raised OUT-OF-FUEL"
+    if res["exc"] is None:
+        return "error"
+    return "raised " + res["exc"]
+
+
+def canon_model(ans: str) -> str:
+    if ans.startswith("ok"):
+        return ans.split(" T=")[0]
+    if ans.startswith("error"):
+        return "error"
+    if ans.startswith("raised NodeError"):
+        return "raised NodeError"
+    return ans
